@@ -233,6 +233,7 @@ pub fn dist_case(la: usize, lb: usize, lc: usize) -> impl Strategy<Value = DistC
 }
 
 pub fn run(env: &Env, rep: &Report) {
+    stall_watchdog(300);
     rep.set_rule("every vector length 0..=130 (exhaustive over lengths) x random values (1e-3..1e3 with signs, zeros, small integers; sparse variants with whole aligned blocks or single components zeroed; for the round trip also arbitrary finite bit patterns incl. subnormals and signed zeros); distance cases over all length pairs drawn from 0..=130 incl. different lengths, triples for the triangle inequality, positive scalings. Non-trivial: length not a multiple of 8 or two different packed lengths; distinct = distinct serialized case");
     rep.assume("reference: scalar f64 formulas on zero-padded vectors truncated to the common packed prefix; relative tolerance 1e-4 (conditioning-aware for cosine)");
     let per_len = env.tier.pick(1500u32, 20000);
